@@ -122,7 +122,7 @@ func (reconfStream) Generate(rng *rand.Rand, tier string, emit func(Case)) {
 		}
 		emit(Case{"op": "reconf", "hist": hm, "shortage": shortage, "root": reconfRoot})
 	}
-	for _, mode := range []string{"configure-first", "use-then-configure", "configure-twice"} {
+	for _, mode := range []string{"configure-first", "use-then-configure", "configure-twice", "configure-during-first-use", "configure-during-first-use"} {
 		emit(Case{"op": "default", "mode": mode})
 	}
 }
@@ -515,6 +515,24 @@ func childDefaultCache(args []string) int {
 	case "configure-twice":
 		_ = cdi.Configure(cdi.WithSpecDirs("/nonexistent-cdi-dir"))
 		_ = cdi.Configure(cdi.WithAutoRefresh(false), cdi.WithSpecDirs(dir))
+	case "configure-during-first-use":
+		// another goroutine is in the middle of the very first use of the default cache (creating it over default
+		// directories that take long to scan) when Configure is called: the options must not get lost
+		slow := filepath.Join(filepath.Dir(dir), "slow-default")
+		_ = os.MkdirAll(slow, 0o755)
+		for i := 0; i < 6; i++ {
+			_ = os.WriteFile(filepath.Join(slow, fmt.Sprintf("big%d.json", i)), specBytesOf(fmt.Sprintf("big%d.com/class", i), "big", 3000), 0o644)
+		}
+		t0 := time.Now()
+		_, _ = cdi.NewCache(cdi.WithSpecDirs(slow), cdi.WithAutoRefresh(false))
+		scan := time.Since(t0)
+		cdi.DefaultSpecDirs = []string{slow}
+		first := make(chan struct{})
+		go func() { _ = cdi.GetDefaultCache().ListDevices(); close(first) }()
+		time.Sleep(scan * 3 / 10)
+		_ = cdi.Configure(cdi.WithSpecDirs(dir))
+		<-first
+		_ = os.RemoveAll(slow)
 	}
 	b, _ := json.Marshal(cdi.GetDefaultCache().ListDevices())
 	fmt.Println(string(b))
